@@ -51,6 +51,15 @@ class C16(Check):
             mbx_in = mbx if rng.random() < 0.6 else rng.choice([24, 32, 48, 64, 128, 256])     # the two mailboxes need not have one size
             out.append({"kind": kind, "n": n, "mbx": mbx, "mbx_in": mbx_in, "sub": rng.choice([None, 0, 1, 7, 255]), "delay": rng.choice([0, 0, 1, 3]),
                         "unrelated": rng.choice([0, 0, 0, 1, 2]) if kind == "up" else 0, "seed": rng.randrange(1 << 30)})
+        import random
+        rng = random.Random(self.seed + 16)      # its own stream: the cases above stay what they were
+        for _ in range(30 if self.tier == "quick" else 400):
+            # two transfers of one terminal started together: the second begins while the first still waits for its (delayed) response
+            mbx = rng.choice([24, 32, 64, 128])
+            pick = lambda: rng.choice([rng.randint(1, 4), rng.randint(1, 4), rng.randint(5, mbx - 17), mbx + rng.randint(0, 40)])      # noqa
+            out.append({"kind": rng.choice(["up", "down"]), "n": pick(), "mbx": mbx, "mbx_in": mbx, "sub": rng.choice([1, 7, 255, None]),
+                        "delay": rng.choice([0, 3, 8, 10, 12, 20]), "unrelated": 0, "seed": rng.randrange(1 << 30),
+                        "also": {"kind": rng.choice(["up", "down"]), "n": pick(), "seed": rng.randrange(1 << 30)}})
         return out
 
     def value(self, case):
@@ -65,6 +74,29 @@ class C16(Check):
         index, sub, mbx = 0x8000 + (case["seed"] & 0xff), case["sub"], case["mbx"]
         mbx_in = case.get("mbx_in", mbx)          # "mbx": the mailbox the master writes, "mbx_in": the one it reads
 
+        async def both(ec, t, srv, key):
+            also = case["also"]
+            val2 = self.value(also)
+            index2 = index ^ 0x100
+            key2 = (index2, "CA" if sub is None else sub)
+
+            async def one(kind, idx, k, v):
+                try:
+                    if kind == "up":
+                        srv.objects[k] = v
+                        return await asyncio.wait_for(t.sdo_read(idx, sub), 120)
+                    await asyncio.wait_for(t.sdo_write(v, idx, sub), 120)
+                except (EtherCatError, TypeError, struct.error, ValueError) as e:
+                    return Err(5, f"{type(e).__name__}: {e}")
+                except asyncio.TimeoutError:
+                    return Err(8, "transfer did not finish")
+            try:
+                res, res2 = await asyncio.gather(one(case["kind"], index, key, val), one(also["kind"], index2, key2, val2))
+            finally:
+                ec._sendloop_task.cancel()
+            return {"res": res, "stored": srv.objects.get(key), "res2": res2, "stored2": srv.objects.get(key2), "rx": srv.rx_payloads, "tx": srv.tx_payloads,
+                    "violations": srv.violations, "toggles": [], "messages": srv.messages, "counters": srv.counters}
+
         async def go():
             ec = SimpleEtherCat("verif0")
             sim = SimTerminal(station=1005)
@@ -77,6 +109,8 @@ class C16(Check):
             t.mbx_out_off, t.mbx_out_sz, t.mbx_in_off, t.mbx_in_sz = 0x1000, mbx, 0x1400, mbx_in
             key = (index, "CA" if sub is None else sub)
             res = None
+            if case.get("also"):
+                return await both(ec, t, srv, key)
             try:
                 if case["kind"] == "up":
                     srv.objects[key] = val
@@ -96,6 +130,8 @@ class C16(Check):
         return o
 
     def model_term(self, case):
+        if case.get("also"):
+            return None      # two exchanges one after the other in either order: decided by the oracle
         val = self.value(case)
         index, sub = 0x8000 + (case["seed"] & 0xff), case["sub"]
         if case["kind"] == "down":
@@ -121,6 +157,15 @@ class C16(Check):
                 return f"terminal holds {None if o['stored'] is None else o['stored'].hex()[:60]} after downloading {val.hex()[:60]}"
         elif o["res"] != val:
             return f"upload returned {o['res'].hex()[:60]} for a stored value {val.hex()[:60]}"
+        if case.get("also"):
+            val2 = self.value(case["also"])
+            if isinstance(o["res2"], Err):
+                return f"the transfer started at the same time ({case['also']['kind']}load of {len(val2)} bytes) failed: {o['res2'].what}"
+            if case["also"]["kind"] == "down":
+                if o["stored2"] != val2:
+                    return f"terminal holds {None if o['stored2'] is None else o['stored2'].hex()[:60]} after the concurrent download of {val2.hex()[:60]}"
+            elif o["res2"] != val2:
+                return f"the concurrent upload returned {o['res2'].hex()[:60]} for a stored value {val2.hex()[:60]}"
         for k, tg in enumerate(o["toggles"]):
             if tg != (0x10 if k % 2 else 0):
                 return f"segment toggle bits {o['toggles']} do not alternate starting at 0"
@@ -150,6 +195,7 @@ class C16(Check):
     def rule(self):
         return ("downloads and uploads of values of 0..5 mailbox sizes (30% tiny, 30% around the first-message capacity, 40% around k further segments +-8 bytes), "
                 "mailbox sizes 24..256 (40%: write and read mailbox of different sizes), with subindex or complete access, responses delayed by 0-3 status polls, 0-2 unrelated mails before an upload response; "
+                "plus pairs of transfers of one terminal started together (responses delayed by up to 20 polls), both of which must be exact; "
                 "corpus: all boundary lengths for 3 mailbox sizes; non-trivial = at least two mailbox messages sent")
 
     def distribution(self, cases, observed):
@@ -160,6 +206,7 @@ class C16(Check):
             d["segmented"] += len(o["rx"]) > 1
             d["expedited"] += 0 < c["n"] <= 4 and c["sub"] is not None
             d["failed"] += isinstance(o["res"], Err)
+            d["pairs"] = d.get("pairs", 0) + bool(c.get("also"))
         return d
 
     def describe(self, case):
